@@ -21,7 +21,7 @@ RULE = ("per history (length 1..6): before every step 0..3 edits drawn from {cre
         "histories kill one cached run at the k-th write/pwrite/fsync in the cache directory. Oracle: report bodies "
         "equal at every step, cached run exits 0. non-trivial = some step was served from the cache (fewer in-world "
         "reads than the uncached twin); distinct = distinct (history signature)")
-ASSUMPTIONS = ["every content change moves mtime (ms resolution) or length", "kill model: completed system calls are durable",
+ASSUMPTIONS = ["every content change changes mtime (ms resolution; forwards, or backwards for a file recreated from a backup) or length", "kill model: completed system calls are durable",
                "sled internals run real code under the seam (not a stub); its own thread interleavings are not controlled"]
 
 
@@ -81,7 +81,10 @@ def gen_case(seed, i):
                     t2 = rng.choice([x for x in live if x != t])
                     edits.append({"kind": "swap", "p": t, "to": t2})
                 elif kind == "recreate":
-                    edits.append({"kind": "recreate", "p": t, "uid": uid, "like": rng.choice(files) if rng.random() < 0.5 else None})
+                    # the recreated file carries the current time - or, a third of the time, an OLDER time than the
+                    # file it replaces (restored from a backup with its timestamp preserved: cp -p, rsync -t, tar x)
+                    edits.append({"kind": "recreate", "p": t, "uid": uid, "like": rng.choice(files) if rng.random() < 0.5 else None,
+                                  "older": rng.random() < 0.35})
                 elif kind in ("modify", "append", "truncate"):
                     edits.append({"kind": kind, "p": t, "uid": uid})
         cfg = dict(base)
@@ -174,7 +177,10 @@ def apply_edit(rd, e, now, labels, world_content):
             if data is None or len(data) != n:
                 data = content_bytes({"uniq": e["uid"], "len": n})
             open(p, "wb").write(data)
-            os.utime(p, ns=(now, now))
+            mt = now
+            if e.get("older"):
+                mt = min(st.st_mtime_ns, now) - (3600 * 10**9 + 1_000_000)   # differs from the replaced file's mtime, but backwards
+            os.utime(p, ns=(mt, mt))
             labels[os.lstat(p).st_ino] = {"ino": old_ino}     # the new file is presented with the OLD inode number
         return True
     except OSError:
